@@ -892,7 +892,29 @@ class Analysis:
 
     INLINE_FILLS = {"mpn_store": "incr0", "MPN_COPY_INCR": "incr1", "MPN_COPY_DECR": "decr1"}
 
-    def copy_direction(self, mac, dst_e, src_e, st, ne, line):
+    def fresh_block_params(self):
+        """object parameters whose limb block this function itself installs (x->_mp_d = allocate (..), the init functions): that block is
+        nobody else's"""
+        if getattr(self, "_fresh_params", None) is None:
+            out = set()
+            pid = {p["id"]: i for i, p in enumerate(self.params)}
+            for b in self.fn["blocks"]:
+                for el in b["elems"]:
+                    def f(n):
+                        if n.get("k") == "binop" and n["op"] == "=" and n["l"].get("k") == "member" and n["l"]["field"] == "_mp_d":
+                            r = n["r"]
+                            while isinstance(r, dict) and r.get("k") in ("cast", "paren"):
+                                r = r["e"]
+                            b_ = n["l"].get("base")
+                            while isinstance(b_, dict) and b_.get("k") in ("cast", "paren", "member", "unop"):
+                                b_ = b_.get("base") if b_.get("k") == "member" else b_.get("e")
+                            if isinstance(r, dict) and r.get("k") == "call" and isinstance(b_, dict) and b_.get("k") == "var" and b_["id"] in pid:
+                                out.add(pid[b_["id"]])
+                    sa.walk(el["e"], f)
+            self._fresh_params = out
+        return self._fresh_params
+
+    def copy_direction(self, mac, dst_e, src_e, st, ne, line, strict=False):
         """R-OVERLAP (direction): MPN_COPY_DECR walks from the top limb down, so it is only right when the destination is not below
         the source inside one block; MPN_COPY_INCR the other way round.  A base pointer (PTR (x), nothing added) is the lowest address
         of its block: copying DOWN to a base pointer from a pointer that was advanced inside a block that may be the same one must
@@ -915,6 +937,18 @@ class Analysis:
                     bad = "below"
                 if not want_decr and ((bs and not bd) or (delta is not None and delta > 0)):
                     bad = "above"
+                if strict and not bad and ((bd and not bs) or (delta is not None and delta < 0)) and not (self.fresh_block_params() & {rd[1], rs[1]}):
+                    # MPN_COPY asserts MPN_SAME_OR_SEPARATE_P itself before it expands to the incrementing copy: a partial overlap in the
+                    # harmless direction still aborts the --enable-assert build
+                    if self.fine and ("R-OVERLAP", self.fn["name"], "MPN_COPY") not in self.exceptions:
+                        self.rep("R-OVERLAP", line, "copy-asserts-separate:MPN_COPY",
+                                 "MPN_COPY at line %d copies inside what may be one block (%s and %s may be the same variable) with the destination "
+                                 "below the source: the copy itself is right, but MPN_COPY asserts MPN_SAME_OR_SEPARATE_P, so the in-place call "
+                                 "aborts in an --enable-assert build (MPN_COPY_INCR is the macro for this overlap)"
+                                 % (line, self.rname(rd), self.rname(rs)))
+                    else:
+                        self.stats.bump("overlap_undecided", (line, mac))
+                    return
                 if bad:
                     if not self.fine:
                         self.stats.bump("overlap_undecided", (line, mac))
@@ -959,7 +993,7 @@ class Analysis:
                     return None
                 dst_e, src_e = strip_n(dst_e), strip_n(src_e)
             if dst_e is not None and src_e is not None:
-                self.copy_direction(mac, dst_e, src_e, st, ne, el["line"])
+                self.copy_direction(mac, dst_e, src_e, st, ne, el["line"], strict="MPN_COPY" in el.get("m", []))
         if "dst" in slot and "n" in slot and not slot.get("done"):
             slot["done"] = True
             kind = self.INLINE_FILLS[mac]
